@@ -172,7 +172,7 @@ def _parallel_sites(ctx):
                     prog.dotted(f, f.module, n.func.func) == \
                     "joblib.Parallel":
                 sites.append((f, n))
-    ctx.floor("C05b-parallel-sites", len(sites), 7)
+    ctx.floor("C05b-parallel-sites", len(sites), 4)
     ok_re, why_re, re_f = _restored_by_reindex(ctx, prog)
     for f, site in sites:
         ctx.require(len(site.args) == 1 and isinstance(
@@ -611,7 +611,7 @@ def _chunk_constants(ctx):
                       f"({mod.relpath}:{n.lineno})",
                       f"{cname} {why}: a streaming chunk size influences a "
                       "value other than how rows are batched")
-    ctx.floor("C05e-constant-uses", n_uses, 12)
+    ctx.floor("C05e-constant-uses", n_uses, 6)
 
 
 # ------------------------------------------------------------------ f
